@@ -106,12 +106,13 @@ pub fn xf_qtrans() -> BoxedStrategy<Xf> {
 
 pub fn src_for(ctx: &Ctx, d: &Domain) -> BoxedStrategy<SrcSpec> {
     let ext = d.w.max(d.h) as f32;
-    let mut v: Vec<(u32, BoxedStrategy<SrcSpec>)> = vec![(6, solid_src())];
+    let mut v: Vec<(u32, BoxedStrategy<SrcSpec>)> = vec![(18, solid_src())];
     if d.images {
-        v.push((2, image_src(4)));
+        v.push((6, image_src(4)));
     }
     if d.gradients {
-        v.push((2, gradient_src(ctx, ext)));
+        v.push((6, gradient_src(ctx, ext)));
+        v.push((1, degenerate_gradient_src(ctx, ext)));
     }
     proptest::strategy::Union::new_weighted(v).boxed()
 }
